@@ -346,6 +346,38 @@ pub fn run(args: &[String]) {
         let mut outcomes: BTreeSet<String> = BTreeSet::new();
         let mut per_bound = vec![0u64; bound + 1];
         let mut capped = false;
+        // own every source of nondeterminism, then prove it: the default schedule, run twice from
+        // a fresh directory and a reset registry, must give the same result. If it does not, the
+        // library keeps state that survives the registry reset - the result of an export then
+        // depends on what the process exported before (and exploring further would be unsound).
+        {
+            let a = run_one(&uni, program, &[], &mut scratch);
+            let b = run_one(&uni, program, &[], &mut scratch);
+            match (a, b) {
+                (Ok(a), Ok(b)) => {
+                    if a.tree != b.tree || a.decisions.len() != b.decisions.len() {
+                        rep.evaluations += 2;
+                        if a.tree != b.tree {
+                            rep.violation(
+                                json!({"check": "same-schedule-different-result-on-second-run"}),
+                                json!({"program": pdesc, "first_run": a.tree, "second_run": b.tree, "first_run_points": a.decisions.len(), "second_run_points": b.decisions.len()}),
+                            );
+                            rep.count("programs_not_explored_because_not_reproducible", 1);
+                            continue;
+                        }
+                        rep.machinery_errors.push(format!(
+                            "program {pdesc}: the same schedule took {} scheduling points, then {} - hidden state",
+                            a.decisions.len(), b.decisions.len()
+                        ));
+                        rep.finish();
+                    }
+                }
+                (Err(e), _) | (_, Err(e)) => {
+                    rep.machinery_errors.push(e);
+                    rep.finish();
+                }
+            }
+        }
         // iterative context bounding: depth-first over choice prefixes, cost = preemptions
         let mut stack: Vec<Vec<usize>> = vec![vec![]];
         let mut execs = 0u64;
